@@ -20,6 +20,26 @@ pub const F_FLOAT: &str = "C14-float-loses-fraction";
 pub const F_STAR_ALIAS: &str = "C14-star-alias-unquoted";
 pub const F_MAIN_ALIAS: &str = "C14-statement-alias-dropped";
 
+/// programs in which NAME is replaced by identifiers of every length 1..=70
+pub const WIDTH_TEMPLATES: &[&str] = &[
+    "from t | filter (NAME | in 50000..150000)",
+    "from t | filter (NAME | in @2020-01-01..@2020-12-31)",
+    "from t | filter (NAME | in 1.5..2.5) | take 2..10",
+    "from t | filter (NAME | in \"aaaa\"..\"zzzz\")",
+    "from t | filter (NAME | in (-5)..(-1))",
+    "from t | filter (b | in 1..NAME)",
+    "from t | derive {y = case [NAME > 0 => \"aaaa\", NAME < 0 => \"bbbb\", true => null]}",
+    "from t | select {NAME, b = f\"{NAME} and more\", c = s\"COALESCE({NAME}, 0)\"}",
+    "from t | sort {-NAME, +b} | take 1..20",
+    "from t | join side:left u (t.NAME == u.NAME && t.b != u.b)",
+    "from t | group {NAME} (window rows:-3..3 (derive {m = sum b, r = rank b}))",
+    "from t | derive {y = (NAME + 1) * (b - -2) / 3 ?? 0, z = -NAME ** 2, w = !f && (NAME > b || b == null)}",
+    "let f = a b:1 -> a + b\nfrom t | derive {y = (f b:22222 NAME), z = (NAME | f b:33333)}",
+    "from t | select {NAME = a, `NAME x` = b, r = 1..5} | filter `NAME x` > 2 | aggregate {total = sum NAME, n = count this}",
+    "from t | filter NAME > @2020-01-01T12:00:00+01:00 && b < 2days && c == 0x1f",
+    "from [{NAME = 1, b = 2.5}, {NAME = 3, b = null}] | append (from t | select {NAME, b})",
+];
+
 pub fn gen_case(t: &mut Tape) -> Case {
     let mut cfg = GenCfg::general();
     cfg.bias = *t.pick(&[Bias::General, Bias::Frame, Bias::Window, Bias::Sort]);
@@ -30,6 +50,9 @@ pub fn gen_case(t: &mut Tape) -> Case {
     let mut c = c01::gen_case(t, cfg);
     c.prog.surface.redundant_parens = t.chance(1, 3);
     let mut source = print::program(&c.prog);
+    if t.chance(1, 3) {
+        source = crate::model::lexdecor::stretch(t, &source);
+    }
     if t.chance(1, 2) {
         source = crate::model::lexdecor::decorate(t, &source);
         if t.chance(1, 4) {
@@ -196,6 +219,16 @@ pub fn run(ctx: &Ctx) -> i32 {
     ctx.run_replays(|c, case| replay_any(c, case, &ctx.known));
     let corpus: Vec<Case> = util::repo_queries().into_iter().map(|s| Case { source: s }).collect();
     ctx.enumerate("repo-queries", corpus, |c| check(c, &ctx.known));
+    // width ladder: every template at every identifier length 1..=70, so that each construct is met at
+    // every column around the formatter's line widths (exhaustive over templates x lengths)
+    let mut ladder = vec![];
+    for tpl in WIDTH_TEMPLATES {
+        for k in 1..=70usize {
+            let n = format!("c{}", "x".repeat(k - 1));
+            ladder.push(Case { source: format!("{}\n", tpl.replace("NAME", &n)) });
+        }
+    }
+    ctx.enumerate("width-ladder", ladder, |c| check(c, &ctx.known));
     ctx.tape_search("generated", ctx.n(30_000, 1_000_000), 500, gen_case, |c| check(c, &ctx.known));
     if !ctx.quick() {
         ctx.fuzz_campaign("fmt_rt", ctx.fuzz_secs(300), 2048);
